@@ -314,6 +314,8 @@ class SFloat:
             return float(n)
         if n.lo < 0:
             if n < 0:                               # decided by the solver under the path condition (forks if both are possible)
+                if COARSE_DIV:
+                    core.cur().cut('float arithmetic on a negative amount (not modelled): path not decided')
                 raise EngineLimit("negative amount")
             n = LInt(n.t, 0, max(n.hi, 0))
         if n.hi < (1 << 53):
@@ -367,6 +369,11 @@ class SFloat:
             return SFloat(0, 1, 0)
         if b.den == 1 and b.num & (b.num - 1) == 0:          # power of two: exact
             return SFloat(a.num, a.den, a.exp2 + b.exp2 + b.num.bit_length() - 1)
+        if a.den == 1 and a.exp2 == 0 and b.den == 1 and b.exp2 >= 0 and a.num.lo >= 0 and a.num.hi * (b.num << b.exp2) < (1 << 53):
+            return SFloat(a.num * (b.num << b.exp2), 1, 0)    # integer x integer below 2**53: exact, no rounding
+        if COARSE_DIV and a.den == 1 and a.exp2 == 0 and b.den == 1 and b.exp2 < 0:
+            # x * c with c = b.num / 2**-b.exp2: only int() is offered, floor or floor + 1 (see SFloatQ)
+            return SFloatQ(SFloat(a.num * b.num, 1, 0), SFloat(1 << (-b.exp2), 1, 0))
         return round_to_double(a.num * b.num, a.den * b.den, a.exp2 + b.exp2)
 
     __rmul__ = __mul__
